@@ -581,6 +581,15 @@ func main() {
 		// three nodes over one kv: A.Get(R0); B.Get(R0) + B.Update accepted; information lookups on A's and C's
 		// nodes in between; A.Update must fail
 		explore(mk(eng, "held", "corpus-info-lookup", prog("get", "info", "update"), prog("get", "update"), prog("info")))
+		// the same three nodes as three real backend.NewBackend over one kv and the real leader.NewLeaderElection(backendA, ...),
+		// in exactly this order: A.Get(R0); B.Get(R0); B.Update accepted; GetLeaderInfo/GetElectionInfo on node A; (on node C);
+		// A.Update — which must be refused, B's record staying stored
+		{
+			cs := mk(eng, "held", "corpus-info-lookup-3-backends", prog("get", "info", "update"), prog("get", "update"), prog("info"))
+			cs.Backend, cs.Mutant = true, mutant
+			r := runSchedule(cs, kv, []int{0, 1, 1, 0, 2, 0}, nil)
+			emit(cs, r)
+		}
 		explore(mk(eng, "absent", "corpus-renew-twice", prog("create", "update", "update", "get", "update")))
 		explore(mk(eng, "held", "corpus-same-observed", prog("get", "update"), prog("get", "update")))
 		explore(mk(eng, "absent", "corpus-create-race", prog("get", "create"), prog("get", "create")))
